@@ -332,6 +332,11 @@ def _movable(e):
     return False
 
 
+def _allocates(e):
+    return any(isinstance(n, (ast.List, ast.Dict, ast.Set, ast.ListComp, ast.DictComp, ast.SetComp)) or
+               (isinstance(n, ast.Call) and norm(n.func) == 'np.array') for n in ast.walk(e))
+
+
 def _const_literal(e):
     if isinstance(e, ast.Constant):
         return isinstance(e.value, (int, float, complex))
@@ -519,6 +524,10 @@ def inline_unknown_temps(known, keep=frozenset()):
                             copied_back = any(isinstance(r, ast.Assign) and len(r.targets) == 1 and
                                               isinstance(r.targets[0], ast.Name) and r.targets[0].id in operands and
                                               isinstance(r.value, ast.Name) and r.value.id == t for r in rest)
+                            # a display / literal array is a new object per evaluation: it may move to its single use, it
+                            # is never duplicated
+                            if _allocates(s.value) and inrest != 1:
+                                conflict = True
                             if total - 1 == inrest and not conflict and not copied_back:
                                 blk[i + 1:] = [_SubstName(t, s.value).visit(r) for r in rest]
                                 del blk[i]
